@@ -16,11 +16,14 @@ struct TopicSt {
     /// AtLeastOnce after a reopen, where any durable position <= the in-memory one is allowed
     cands: std::collections::BTreeSet<usize>,
     clean: bool,
+    /// entries of an append/batch that was in flight when the process died: a prefix of them may have
+    /// reached the disk; resolved at the next `count` of the topic
+    maybe: Option<Vec<Desc>>,
 }
 
 impl Default for TopicSt {
     fn default() -> Self {
-        TopicSt { log: Vec::new(), cands: [0usize].into_iter().collect(), clean: true }
+        TopicSt { log: Vec::new(), cands: [0usize].into_iter().collect(), clean: true, maybe: None }
     }
 }
 
@@ -61,6 +64,20 @@ pub fn check(cfg: &Cfg, cap: usize, max_entry: usize, ops: &[String], outs: &[St
             }
         }
     }
+    // C07 / C09: after a process death inside a write (a consuming read), any later delivery, order, count or
+    // position mismatch is a failure of crash recovery of appends (of consumer positions)
+    let first_crash_w = ops.iter().zip(outs.iter()).position(|(op, out)| out == "crashed" && (op.starts_with("append") || op.starts_with("batch")));
+    let first_crash_r = ops.iter().zip(outs.iter()).position(|(op, out)| out == "crashed" && (op.starts_with("next") || op.starts_with("bread")));
+    for (fc, prop) in [(first_crash_w, "C07"), (first_crash_r, "C09")] {
+        if let Some(fc) = fc {
+            let extra: Vec<Violation> = v
+                .iter()
+                .filter(|x| x.line > fc + 1 && matches!(x.prop, "C01" | "C02" | "C03" | "C15" | "C06" | "ANY"))
+                .map(|x| Violation { prop, line: x.line, msg: format!("after the crash at line {}: {}", fc + 1, x.msg) })
+                .collect();
+            v.extend(extra);
+        }
+    }
     // C04: a rejected append must leave no trace. Any delivery/count mismatch that follows a rejected
     // append or batch in the same program is (also) a violation of C04.
     let first_reject = ops.iter().zip(outs.iter()).position(|(op, out)| (op.starts_with("append") || op.starts_with("batch")) && out.starts_with("err:"));
@@ -80,8 +97,12 @@ fn check_inner(cfg: &Cfg, cap: usize, ops: &[String], outs: &[String]) -> Vec<Vi
     let strict = cfg.mode == "strict";
     let mut topics: HashMap<String, TopicSt> = HashMap::new();
     let mut opened = 0usize;
+    // process deaths seen so far inside a write / inside a consuming read
+    let mut crashed_w = false;
+    let mut crashed_r = false;
     // after a reopen, a mismatch is a failure of restart invisibility (C06) rather than of the in-process property
     let tag = |inproc: &'static str, opened: usize| -> &'static str { if opened > 1 { "C06" } else { inproc } };
+    let _ = (&crashed_w, &crashed_r);
     for (k, (op, out)) in ops.iter().zip(outs.iter()).enumerate() {
         let t: Vec<&str> = op.split_whitespace().collect();
         if t.is_empty() {
@@ -94,6 +115,32 @@ fn check_inner(cfg: &Cfg, cap: usize, ops: &[String], outs: &[String]) -> Vec<Vi
             if m.first().copied() == Some("bread") && (m[3] == "0" || m[4] != "-") && outs[k - 2] != *out && outs[k - 1].starts_with('[') {
                 v.push(Violation { prop: "C02", line, msg: format!("`{}` changed the reclamation bookkeeping: {} -> {}", ops[k - 1], outs[k - 2], out) });
             }
+        }
+        if out == "crashed" {
+            // the process died inside this operation (C07/C08/C09): what it was doing may or may not have happened
+            match t[0] {
+                "append" | "batch" => {
+                    let st = topics.entry(t[1].to_string()).or_insert_with(|| TopicSt::default());
+                    st.clean = false;
+                    let es = if t[0] == "append" { vec![Desc::parse(t[2])] } else { parse_batch(t[2]) };
+                    st.maybe = Some(es);
+                    crashed_w = true;
+                }
+                "next" | "bread" => {
+                    let st = topics.entry(t[1].to_string()).or_insert_with(|| TopicSt::default());
+                    let cp = if t[0] == "next" { t[2] == "1" } else { t[3] == "1" && t[4] == "-" };
+                    if cp {
+                        // only the read in flight may go either way
+                        let extra = if t[0] == "next" { 1 } else { cap };
+                        let lo = st.cands.iter().min().copied().unwrap_or(0);
+                        let hi = st.cands.iter().max().copied().unwrap_or(0);
+                        st.cands = (lo..=(hi + extra).min(st.log.len())).collect();
+                        crashed_r = true;
+                    }
+                }
+                _ => {}
+            }
+            continue;
         }
         if out == "panic" {
             let prop = if t[0] == "open" { "C06" } else { "ANY" };
@@ -240,6 +287,29 @@ fn check_inner(cfg: &Cfg, cap: usize, ops: &[String], outs: &[String]) -> Vec<Vi
             }
             "count" => {
                 let st = topics.entry(t[1].to_string()).or_insert_with(|| TopicSt::default());
+                if let Some(es) = st.maybe.take() {
+                    // which prefix of the interrupted operation's entries was recovered?
+                    let got = out.parse::<usize>().ok();
+                    // all or nothing first; a strict prefix only if neither explains the count (with a floating
+                    // AtLeastOnce position several (k, position) pairs can explain one number)
+                    let mut hit = None;
+                    let mut order: Vec<usize> = vec![es.len(), 0];
+                    order.extend(1..es.len());
+                    for k in order {
+                        if st.cands.iter().any(|&c| got == Some(st.log.len() + k - c.min(st.log.len() + k))) { hit = Some(k); break; }
+                    }
+                    match hit {
+                        Some(k) => {
+                            if k > 0 && k < es.len() {
+                                v.push(Violation { prop: "C08", line, msg: format!("after the crash inside a batch of {} entries, {} of them were recovered (`{}` -> {})", es.len(), k, op, out) });
+                            }
+                            st.log.extend(es[..k].iter().cloned());
+                        }
+                        None => {
+                            v.push(Violation { prop: "C07", line, msg: format!("`{}` -> {} after a crash: no prefix of the interrupted operation's {} entries explains it (acknowledged {} entries)", op, out, es.len(), st.log.len()) });
+                        }
+                    }
+                }
                 // with a floating position the count must match one of the candidates
                 let ok = st.cands.iter().any(|&c| out.parse::<usize>().ok() == Some(st.log.len() - c.min(st.log.len())));
                 if !ok {
